@@ -93,6 +93,32 @@ def search_units(ctx, fd, rebound):
                 if relerr(sim.G, gref) > 1e-12 or (un["length"], un["time"], un["mass"]) != (l, t, m):
                     fd.fail("units:G", {"units": (l, t, m), "G": sim.G, "G_from_SI": gref, "units_read_back": un},
                             "sim.G after sim.units=... is not G_SI*m*t^2/l^3, or the unit names do not read back")
+    # every unit name written in the docstring of Simulation.units is accepted in any letter case and reads back as its lower-case key
+    import re as _re
+    doc = rebound.Simulation.units.__doc__ or ""
+    docnames, sect = [], None
+    for line in doc.splitlines():
+        t = line.strip()
+        if t in ("Times:", "Lengths:", "Masses:"):
+            sect = {"Times:": "time", "Lengths:": "length", "Masses:": "mass"}[t]; continue
+        if t.startswith("Examples"): sect = None
+        mm = _re.fullmatch(r"([A-Za-z0-9_]+)\s*:\s*\S.*", t)
+        if sect and mm: docnames.append((sect, mm.group(1)))
+    base = {"length": "au", "time": "yr", "mass": "msun"}
+    for kind, nm in docnames:
+        for v in (nm, nm.lower(), nm.upper(), nm.swapcase()):
+            ctx.evaluations += 1
+            u = dict(base); u[kind] = v
+            try:
+                sim = rebound.Simulation(); sim.units = (u["mass"], u["length"], u["time"])
+                back = sim.units[kind]
+            except Exception as e:
+                back = repr(e)
+            if back != nm.lower():
+                fd.fail("units:documented-name", {"documented_as": nm, "kind": kind, "given": v, "read_back": back},
+                        "a unit name listed in the documentation of Simulation.units is not accepted (case-insensitively) as that %s unit" % kind)
+    if len(docnames) < 10:
+        fd.fail("units:documented-list", {"found": docnames}, "the list of supported units disappeared from the docstring of Simulation.units")
     sim = rebound.Simulation(); sim.units = ("AU", "yr2pi", "Msun")
     if relerr(sim.G, 1.0) > 1e-14:
         fd.fail("units:G=1", {"G": sim.G}, "G(au,yr2pi,msun) != 1")
@@ -430,7 +456,7 @@ def search_frames(ctx, fd, rebound):
         mode = k % 3
         v1 = v1b = v2 = vt = None
         directed = mode != 2 and k < 60     # two first-order sets, both with mass variations of every particle, + their mixed second-order set
-        if mode != 2 and (directed or rng.random() < 0.7):
+        if directed or rng.random() < 0.7:
             v1 = sim.add_variation()
             if directed or rng.random() < 0.6:
                 v1b = sim.add_variation() if (directed or rng.random() < 0.5) else v1
@@ -494,6 +520,10 @@ def search_frames(ctx, fd, rebound):
                 if qa[0] != 0.0 or any(abs((F(qa[i]) - F(qa[j])) - (F(qb[i]) - F(qb[j]))) > 8 * EPS * big for i in range(n) for j in range(i)):
                     fd.fail("move_to_hel:" + ("pos" if ci < 3 else "vel"), dict(rep, component=c, particles_after=a),
                             "move_to_hel: particle 0 is not at rest at the origin or relative coordinates changed (%s)" % c)
+            # documented (docs/simulationreferenceframes.md): 'Variational equations are not affected by this operation'
+            if any(a[i][j] != b[i][j] for i in range(n, sim.N) for j in range(7)):
+                fd.fail("move_to_hel:variational", dict(rep, particles_after=a),
+                        "move_to_hel changed a variational particle (documented: all particles are moved by the same amount, variational equations are not affected)")
         if any(a[i][0] != b[i][0] for i in range(sim.N)):
             fd.fail("frames:mass", dict(rep, particles_after=a), "a frame shift changed a mass")
     # ---- scaling, adding, subtracting simulations (python operators)
@@ -649,15 +679,42 @@ def search_slerp(ctx, fd, clib, Rot):
         ctx.evaluations += 1
         q1 = [rng.gauss(0, 1) for _ in range(4)]; n1 = math.sqrt(sum(x * x for x in q1)); q1 = [x / n1 for x in q1]
         q2 = [rng.gauss(0, 1) for _ in range(4)]; n2 = math.sqrt(sum(x * x for x in q2)); q2 = [x / n2 for x in q2]
+        if k % 10 == 0:       # documented: 'if q1=q2 or q1=-q2 then theta = 0 and we can return q1'
+            t = rng.random()
+            for q2x in (list(q1), [-x for x in q1]):
+                r = clib.reb_rotation_slerp(Rot(*q1), Rot(*q2x), t)
+                rv = [r.ix, r.iy, r.iz, r.r]
+                if max(abs(a - b) for a, b in zip(rv, q1)) > 1e-7:
+                    fd.fail("slerp:same-rotation", {"q1": q1, "q2": q2x, "t": t, "result": rv},
+                            "reb_rotation_slerp(q1, +-q1, t) is not q1")
+        if k % 10 == 1:       # dot product exactly +-1: the documented early exit returns q1 itself
+            qe = rng.choice([[0.0, 0.0, 0.0, 1.0], [1.0, 0.0, 0.0, 0.0], [0.0, -1.0, 0.0, 0.0], [0.5, 0.5, 0.5, 0.5], [0.5, -0.5, 0.5, -0.5]])
+            for q2x in (list(qe), [-x for x in qe]):
+                r = clib.reb_rotation_slerp(Rot(*qe), Rot(*q2x), rng.random())
+                rv = [r.ix, r.iy, r.iz, r.r]
+                if rv != qe:
+                    fd.fail("slerp:early-exit", {"q1": qe, "q2": q2x, "result": rv}, "reb_rotation_slerp(q1, +-q1, t) with |q1.q2| = 1 exactly does not return q1")
+        if k % 3 == 0:        # nearly equal / nearly opposite quaternions, inside and outside the QUATERNION_EPS branch
+            sg = rng.choice([1.0, -1.0]); e = 10 ** rng.uniform(-7, -0.5)
+            q2 = [sg * x + rng.gauss(0, 1) * e for x in q1]; n2 = math.sqrt(sum(x * x for x in q2)); q2 = [x / n2 for x in q2]
         c = sum(a * b for a, b in zip(q1, q2))
-        if abs(c) > 0.999:
+        if abs(c) >= 1.0:
             continue
         th = math.acos(c)
+        sth = math.sqrt(1.0 - c * c)
         t = rng.choice([0.0, 1.0, rng.random(), rng.random()])
         r = clib.reb_rotation_slerp(Rot(*q1), Rot(*q2), t)
         rv = [r.ix, r.iy, r.iz, r.r]
-        sth = math.sin(th)
-        tol = 1e-13 / sth
+        if sth < 1.05e-4:
+            if sth > 0.95e-4:
+                continue          # too close to the branch threshold to predict the branch
+            if c < 0:             # same rotation: q1 is returned (439d558)
+                if rv != q1:
+                    fd.fail("slerp:same-rotation", {"q1": q1, "q2": q2, "t": t, "result": rv}, "reb_rotation_slerp(q1, ~-q1, t) does not return q1")
+            elif abs(sum(x * x for x in rv) - 1.0) > 1e-8 or max(abs(a - b) for a, b in zip(rv, q1)) > 2e-4:
+                fd.fail("slerp:small-angle", {"q1": q1, "q2": q2, "t": t, "result": rv}, "reb_rotation_slerp for nearly equal quaternions is not the (unit to 1e-8) mean")
+            continue
+        tol = 1e-14 / (sth * sth)     # theta = acos(c) is known to eps/sin, the ratios divide by sin once more
         d1 = sum(a * b for a, b in zip(rv, q1)); d2 = sum(a * b for a, b in zip(rv, q2))
         bad = abs(sum(x * x for x in rv) - 1.0) > tol or abs(d1 - math.cos(t * th)) > tol or abs(d2 - math.cos((1 - t) * th)) > tol
         if t == 0.0: bad = bad or max(abs(a - b) for a, b in zip(rv, q1)) > tol
